@@ -692,6 +692,22 @@ def rule_nil_number_reserved(ctx, rep, config="c-lib"):
             n += 1
             key = "yyparse/number-into-translation#%d" % n
             v = strip_int_casts(f, s_.ops[0])
+            # what the stored value is made from (the number itself, or the number adjusted on one way into a merge)
+            fam, work = set(), [v]
+            while work:
+                o = strip_int_casts(f, work.pop())
+                if o.get("k") != "i" or o["v"] in fam:
+                    continue
+                fam.add(o["v"])
+                i_ = f.insts.get(o["v"])
+                if i_ is None:
+                    continue
+                if i_.op == "phi":
+                    work.extend(x_ for (x_, _) in i_.d["incoming"])
+                elif i_.op == "select":
+                    work.extend(i_.ops[1:])
+                elif i_.op in ("add", "sub") and const_int(i_.ops[1]) is not None:
+                    work.append(i_.ops[0])
             guarded = None
             for c in f.all_insts():
                 if c.op != "icmp" or not _same_case(f, c, mc):
@@ -700,7 +716,7 @@ def rule_nil_number_reserved(ctx, rep, config="c-lib"):
                     if const_int(c.ops[y]) in (nil, nil - 1):
                         o = strip_int_casts(f, c.ops[x])
                         lo = f.inst(o)
-                        if o == v or (lo is not None and lo.op == "load" and resolve_addr(f, lo.ops[0]).root == src.root):
+                        if o == v or (o.get("k") == "i" and o["v"] in fam) or (lo is not None and lo.op == "load" and resolve_addr(f, lo.ops[0]).root == src.root):
                             guarded = c
             if guarded is not None:
                 rep.ok("C11-nil-number", key, sample={"store": s_.where(), "compared_at": guarded.where()})
